@@ -20,9 +20,8 @@ Print Assumptions no_emit_on_early_failure.
 
 (* clause 1, exit status: such a root sets has_operational_errors or has_parsing_errors, both exit-code
    expressions give 1, and the trace contains a failure event (the diagnostic) — unless formatting is disabled
-   or the root is ignored under skip_children, and unless the root file has a fatal lexer error (next theorem but one) *)
+   or the root is ignored under skip_children *)
 Theorem exit_one_on_failure : forall (c : cfg) (stdin : bool) (t : mtree) (check : bool),
-  unwinds c t = false ->
   c_version_ok c = false \/
   (c_disable_all c = false /\
    (c_ignore_ok c = false \/ (not_looked_at c t = false /\ root_bad c stdin t))) ->
@@ -39,21 +38,34 @@ Theorem exit_one_on_failure_disabled_refuted :
 Proof. exact disabled_exit_zero_lemma. Qed.
 Print Assumptions exit_one_on_failure_disabled_refuted.
 
-(* exit status 1 and "other roots are still formatted" REFUTED for a fatal lexer error (unterminated string, raw
-   string or block comment) in a ROOT file or on standard input: ParserBuilder::build runs outside catch_unwind,
-   rustc's FatalError unwinds through main, the process ends with status 101 and the roots named after it are not
-   processed (confirmed on the binary); in a child module the same error is an ordinary resolution error *)
+(* REPAIRED (ParserBuilder::build now runs the parser creation under catch_unwind): BEFORE the repair, exit status
+   1 and "other roots are still formatted" failed for a fatal lexer error (unterminated string, raw string or
+   block comment) in a ROOT file or on standard input: rustc's FatalError unwound through main, the process ended
+   with status 101 and the roots named after it were not processed.  Stated about the pre-repair definitions *)
 Theorem root_fatal_lexer_error_exit101_refuted :
   exists (scfg : cfg) (r1 r2 : root),
     n_outcome (t_info (r_tree r1)) = PLexFatal /\
     In (Emitted 7) (fst (run_one scfg r2)) /\
-    run_main (Some scfg) false [r1; r2] = ([[ParseRootErr]], 101) /\
-    run_main (Some scfg) false [r2; r1] = ([[Parsed 7; Formatted 7; Emitted 7]; [ParseRootErr]], 101) /\
-    run_stdin scfg (r_tree r1) = ([ParseRootErr], 101) /\
-    run_main (Some scfg) false [MkRoot true false UseSession (Node (clean_info 5) [Node (lex_info 3) []]); r2] =
-      ([[Parsed 5; ResolveErr]; [Parsed 7; Formatted 7; Emitted 7]], 1).
+    run_main_pre (Some scfg) false [r1; r2] = ([[ParseRootErr]], 101) /\
+    run_main_pre (Some scfg) false [r2; r1] = ([[Parsed 7; Formatted 7; Emitted 7]; [ParseRootErr]], 101) /\
+    run_stdin_pre scfg (r_tree r1) = ([ParseRootErr], 101).
 Proof. exact root_lex_fatal_refuted_lemma. Qed.
 Print Assumptions root_fatal_lexer_error_exit101_refuted.
+
+(* the repaired code: a fatal lexer error in the root is a parse error (diagnostic, parsing flag, exit 1, on
+   standard input too) and the other roots are formatted; in a child module it is a module resolution error *)
+Theorem root_fatal_lexer_error_repaired :
+  (forall c stdin t, c_version_ok c = true -> c_disable_all c = false -> c_ignore_ok c = true ->
+     (c_skip_children c && n_ignored (t_info t)) = false -> n_outcome (t_info t) = PLexFatal ->
+     run_root c stdin t = ([ParseRootErr], parsing_flag) /\ snd (run_stdin c t) = 1) /\
+  run_main (Some cfg_ok) false [MkRoot true false UseSession (Node (lex_info 3) []);
+                                MkRoot true false (LocalOk cfg_ok) (Node (clean_info 7) [])] =
+    ([[ParseRootErr]; [Parsed 7; Formatted 7; Emitted 7]], 1) /\
+  run_main (Some cfg_ok) false [MkRoot true false UseSession (Node (clean_info 5) [Node (lex_info 3) []]);
+                                MkRoot true false (LocalOk cfg_ok) (Node (clean_info 7) [])] =
+    ([[Parsed 5; ResolveErr]; [Parsed 7; Formatted 7; Emitted 7]], 1).
+Proof. exact root_lex_fatal_repaired_lemma. Qed.
+Print Assumptions root_fatal_lexer_error_repaired.
 
 (* clause 1, ordering: in every trace of a root, no parse / resolve event follows an emission: every file is
    parsed and every module resolved before the first file is formatted or written *)
@@ -83,18 +95,18 @@ Theorem panic_contained_child : forall (c : cfg) (t k : mtree) (check : bool),
 Proof. exact panic_child_lemma. Qed.
 Print Assumptions panic_contained_child.
 
-(* clause 2: as long as no root stops the loop (local configuration failing to load, fatal lexer error), the events and flags of each root are
+(* clause 2: as long as no root's local configuration fails to load, the events and flags of each root are
    those of that root alone (run_one does not mention the other roots) *)
 Theorem roots_independent_partial : forall (scfg : cfg) (rs : list root),
-  existsb (aborts scfg) rs = false ->
-  fst (run_roots scfg rs) = map (run_one scfg) rs /\ snd (run_roots scfg rs) = None.
+  existsb aborts rs = false ->
+  fst (run_roots scfg rs) = map (run_one scfg) rs /\ snd (run_roots scfg rs) = false.
 Proof. exact roots_independent_lemma. Qed.
 Print Assumptions roots_independent_partial.
 
 (* in general only a prefix of the roots is processed, each as if alone *)
 Theorem roots_prefix : forall (scfg : cfg) (rs : list root),
   exists k, fst (run_roots scfg rs) = map (run_one scfg) (firstn k rs) /\
-            (existsb (aborts scfg) rs = false -> k = length rs).
+            (existsb aborts rs = false -> k = length rs).
 Proof. exact roots_prefix_lemma. Qed.
 Print Assumptions roots_prefix.
 
@@ -108,11 +120,11 @@ Theorem other_roots_still_formatted_refuted :
 Proof. exact other_roots_refuted_lemma. Qed.
 Print Assumptions other_roots_still_formatted_refuted.
 
-(* exit status of the invocation: 1 (or 101, see above) as soon as one root fails *)
+(* exit status of the invocation: 1 as soon as one root fails *)
 Theorem multi_exit_one : forall (scfg : cfg) (check : bool) (rs : list root) (r : root),
   In r rs ->
-  (f_operational (snd (run_one scfg r)) = true \/ f_parsing (snd (run_one scfg r)) = true \/ aborts scfg r = true) ->
-  snd (run_main (Some scfg) check rs) = 1 \/ snd (run_main (Some scfg) check rs) = 101.
+  (f_operational (snd (run_one scfg r)) = true \/ f_parsing (snd (run_one scfg r)) = true \/ aborts r = true) ->
+  snd (run_main (Some scfg) check rs) = 1.
 Proof. exact run_main_exit_one. Qed.
 Print Assumptions multi_exit_one.
 
